@@ -1,6 +1,6 @@
 """Property -> rules table. Each rule callable: (prog, tier, repo) -> [RuleResult]."""
 from .rules import traversal_instances as TI
-from .rules import traversal, printer_rules, parser_progress, loc_enclose, order_taint, node_comments
+from .rules import traversal, printer_rules, parser_progress, loc_enclose, order_taint, node_comments, par_isolation
 from .rules import gate, lookup_unwrap, heap, witness, incremental, optimizer, const_arith, shape, backend, printer_rules, comment_linear, enum_evidence, ssa_shared, lex_bounds, gc_rules, scope, eval_order, guard_table, relation, type_walker, str_slice, loc_guard, sweep_window
 
 PROPERTIES = {}
@@ -180,9 +180,9 @@ prop('C09', COMMON +
      'by the constant hard line break in the sequence it is emitted into. TRAVERSAL/SIBLING(T-prc): the printer reads every comment-reference slot. '
      'COMMENT-REF-UNIQUE: a comment reference read out of a node is not stored in a second node while the first is kept. '
      'NODE-LEADING-COMMENTS: a node handed to a printer function that does not print the node\'s leading comments has that slot read by the function handing it over, '
-     'the functions it calls or its callers (per hand-over, not only once per slot). CHILD-EXPR-COMMENTS: a sub-expression handed to a printer that does not cover its argument on every path has its leading comments read by the function handing it over. Does not decide '
+     'the functions it calls or its callers (per hand-over, not only once per slot). CHILD-EXPR-COMMENTS: a sub-expression handed to a printer that does not cover its argument on every path has its leading comments read by the function handing it over. SORT-KEY-LOSSY (clause "format --check is stable"): the merged import groups, kept in a hash map, are ordered by a key that is not a lossy function of the module path, so two groups never tie and fall back to hash order. Does not decide '
      'idempotence of the layout nor that a stored comment is printed in the right place.',
-     [comment_linear.run, comment_linear.run_fresh_reference, comment_linear.run_comment_order, comment_linear.run_comment_ref_unique, printer_rules.run_id_comment_pair, printer_rules.run_line_comment_break, printer_rules.run_element_comments, node_comments.run, node_comments.run_child_expr, TI.make(['T-prc'])])
+     [comment_linear.run, comment_linear.run_fresh_reference, comment_linear.run_comment_order, comment_linear.run_comment_ref_unique, printer_rules.run_id_comment_pair, printer_rules.run_line_comment_break, printer_rules.run_element_comments, node_comments.run, node_comments.run_child_expr, order_taint.run_sort_key_lossy_printer, TI.make(['T-prc'])])
 
 prop('C11', COMMON +
      'TRAVERSAL/SIBLING(T-gc): the PStr-bearing fields reachable from Module<Arc<Type>> (type walk over the ADT table) '
@@ -219,9 +219,9 @@ prop('C12', COMMON +
      'into vectors/strings, aggregates and function results to the arguments of the 87 ErrorSet::report_* / '
      'StackableError::add_* call sites; sorting, min/max/count/any/all and collecting into a hash or B-tree collection '
      'remove the taint. COUNTER-SYNC (shared with C02): every temp-name counter handed to the parallel optimiser is '
-     'synchronised back on every path. INTERN-ORDER: before the diagnostics of a compilation are rendered no string is interned in hash-iteration order (long identifiers are ordered by interning index). Does not decide that programs emitted under different module enumeration orders or '
+     'synchronised back on every path. INTERN-ORDER: before the diagnostics of a compilation are rendered no string is interned in hash-iteration order (long identifiers are ordered by interning index). PAR-ISOLATION (clause "whatever the number of worker threads"): in the code reachable from the closures handed to the rayon adapters no branch depends on a value read from state shared between workers (atomics, locks, channels); the shared temporary-name counter only hands out names. SORT-KEY-LOSSY: a stable keyed sort over hash-collection entries does not compute its key from the unique part of the entry through a lossy function (case folding, length, prefix), which would leave ties in hash order. Does not decide that programs emitted under different module enumeration orders or '
      'thread counts behave the same (synthetic numbering follows hash order by design).',
-     [order_taint.run, order_taint.run_intern_order, scope.run_counter_sync],
+     [order_taint.run, order_taint.run_intern_order, scope.run_counter_sync, par_isolation.run, order_taint.run_sort_key_lossy_compiler],
      ['ErrorSet keeps its errors in an ordered set (BTreeSet) and renders them in that order'])
 
 prop('C14', COMMON +
